@@ -475,38 +475,104 @@ func navigate(v *value, path []pathStep) *value {
 
 // loadSym reads through a pointer with symbolic index: ite over candidates
 // (grouped by value), or concretisation when leaves are not scalars.
+type symLoadGroup struct {
+	v    value
+	idxs []int
+}
+
+type symLoadCache struct {
+	snap   []value // raw leaves at the time of grouping
+	groups []*symLoadGroup
+	scalar bool
+}
+
+var symLoadCaches = map[string]*symLoadCache{}
+
+func cheapEq(a, b value) bool {
+	switch x := a.(type) {
+	case cint:
+		y, ok := b.(cint)
+		return ok && x == y
+	case bool:
+		y, ok := b.(bool)
+		return ok && x == y
+	case string:
+		y, ok := b.(string)
+		return ok && x == y
+	case *Term:
+		y, ok := b.(*Term)
+		return ok && x == y
+	case *value:
+		y, ok := b.(*value)
+		return ok && x == y
+	case *ssa.Function:
+		y, ok := b.(*ssa.Function)
+		return ok && x == y
+	}
+	return false
+}
+
+// loadSym reads through a pointer with symbolic index: ite over candidates
+// (grouped by value), or concretisation when leaves are not scalars.
 func loadSym(T types.Type, p *symptr) value {
 	n := len(p.base)
-	type group struct {
-		v    value
-		idxs []int
-	}
-	var groups []*group
-	byKey := map[string]*group{}
+	var groups []*symLoadGroup
 	scalar := true
-	for i := 0; i < n; i++ {
-		leaf := load(T, navigate(&p.base[i], p.path))
-		var key string
-		if t, ok := leaf.(*Term); ok {
-			key = fmt.Sprintf("t%d", t.id)
-		} else if ks, ok := keyString(leaf); ok {
-			key = ks
-			switch leaf.(type) {
-			case cint, bool:
-			default:
-				scalar = false
+	var cache *symLoadCache
+	ckey := ""
+	if n >= 256 {
+		ckey = fmt.Sprintf("%p/%d/%v", &p.base[0], n, p.path)
+		if c := symLoadCaches[ckey]; c != nil {
+			ok := true
+			for i := 0; i < n; i++ {
+				if !cheapEq(*navigate(&p.base[i], p.path), c.snap[i]) {
+					ok = false
+					break
+				}
 			}
-		} else {
-			scalar = false
-			key = fmt.Sprintf("u%d", i)
+			if ok {
+				cache = c
+				groups, scalar = c.groups, c.scalar
+			}
 		}
-		g := byKey[key]
-		if g == nil {
-			g = &group{v: leaf}
-			byKey[key] = g
-			groups = append(groups, g)
+	}
+	if cache == nil {
+		byKey := map[string]*symLoadGroup{}
+		var snap []value
+		if ckey != "" {
+			snap = make([]value, n)
 		}
-		g.idxs = append(g.idxs, i)
+		for i := 0; i < n; i++ {
+			cell := navigate(&p.base[i], p.path)
+			if snap != nil {
+				snap[i] = *cell
+			}
+			leaf := load(T, cell)
+			var key string
+			if t, ok := leaf.(*Term); ok {
+				key = fmt.Sprintf("t%d", t.id)
+			} else if ks, ok := keyString(leaf); ok {
+				key = ks
+				switch leaf.(type) {
+				case cint, bool:
+				default:
+					scalar = false
+				}
+			} else {
+				scalar = false
+				key = fmt.Sprintf("u%d", i)
+			}
+			g := byKey[key]
+			if g == nil {
+				g = &symLoadGroup{v: leaf}
+				byKey[key] = g
+				groups = append(groups, g)
+			}
+			g.idxs = append(g.idxs, i)
+		}
+		if ckey != "" {
+			symLoadCaches[ckey] = &symLoadCache{snap: snap, groups: groups, scalar: scalar}
+		}
 	}
 	if len(groups) == 1 {
 		return groups[0].v
